@@ -176,7 +176,7 @@ var c06DefaultOne = []string{"@", "A", "B", "C", "D", "E", "F", "G", "L", "M", "
 var c06DefaultOneInfo = []string{"I", "Z", "b"} // CHT, CBT, REP: outside the C06 vocabulary, information only
 
 func c06RuleDefaults(c *Ctx, e *c05Eng, tabs map[string]*c06Table) {
-	c.expect("C06.a", 30)
+	c.expect("C06.a", 25)
 	t := tabs["csi"]
 	if t == nil {
 		return
@@ -339,7 +339,7 @@ func c06RuleDefaults(c *Ctx, e *c05Eng, tabs map[string]*c06Table) {
 // ---------------------------------------------------------------- C06.c erase background
 
 func c06RuleErase(c *Ctx, e *c05Eng) {
-	c.expect("C06.c", 10)
+	c.expect("C06.c", 4)
 	var bgField *types.Var
 	if root := c.P.Pkg("vaxis"); root != nil {
 		if tn, ok := root.Types.Scope().Lookup("Style").(*types.TypeName); ok {
@@ -368,7 +368,6 @@ func c06RuleErase(c *Ctx, e *c05Eng) {
 			continue
 		}
 		info := fi.Pkg.TypesInfo
-		recv := e.recvOf(fi)
 		ast.Inspect(fi.Decl.Body, func(n ast.Node) bool {
 			call, ok := n.(*ast.CallExpr)
 			if !ok {
@@ -384,23 +383,7 @@ func c06RuleErase(c *Ctx, e *c05Eng) {
 				target = types.ExprString(sel0.X)
 			}
 			key := fmt.Sprintf("%s/erase of %s takes the current background", fi.Name, target)
-			// argument: <recv>.cursor...Background
-			okArg := false
-			if sel, ok := unparen(call.Args[0]).(*ast.SelectorExpr); ok {
-				if s, ok := info.Selections[sel]; ok && s.Obj() == bgField && recv != nil && rootObj(info, sel) == recv {
-					// the path passes through Model.cursor
-					for cur := ast.Expr(sel); ; {
-						se, ok := unparen(cur).(*ast.SelectorExpr)
-						if !ok {
-							break
-						}
-						if s2, ok := info.Selections[se]; ok && s2.Obj() == cursorField {
-							okArg = true
-						}
-						cur = se.X
-					}
-				}
-			}
+			okArg := c06IsPenBackground(c, e, fi, call.Args[0], bgField, cursorField, 0)
 			if okArg {
 				c.ok("C06.c", key, call.Pos(), "argument is the pen's background")
 			} else {
@@ -409,6 +392,112 @@ func c06RuleErase(c *Ctx, e *c05Eng) {
 			return true
 		})
 	}
+}
+
+// c06IsPenBackground: x denotes <terminal>.cursor...Background — directly, through a local with a
+// single definition, or through a parameter that every call site fills with the pen's background.
+func c06IsPenBackground(c *Ctx, e *c05Eng, fi *FuncInfo, x ast.Expr, bgField, cursorField *types.Var, depth int) bool {
+	if depth > 3 {
+		return false
+	}
+	info := fi.Pkg.TypesInfo
+	recv := e.recvOf(fi)
+	x = unparen(x)
+	if sel, ok := x.(*ast.SelectorExpr); ok {
+		s, ok := info.Selections[sel]
+		if !ok || s.Obj() != bgField || recv == nil || rootObj(info, sel) != recv {
+			return false
+		}
+		for cur := ast.Expr(sel); ; {
+			se, ok := unparen(cur).(*ast.SelectorExpr)
+			if !ok {
+				return false
+			}
+			if s2, ok := info.Selections[se]; ok && s2.Obj() == cursorField {
+				return true
+			}
+			cur = se.X
+		}
+	}
+	id, ok := x.(*ast.Ident)
+	if !ok {
+		return false
+	}
+	obj, _ := info.ObjectOf(id).(*types.Var)
+	if obj == nil {
+		return false
+	}
+	// parameter: every call site passes the pen's background
+	pi := 0
+	for _, f := range fi.Decl.Type.Params.List {
+		for _, nme := range f.Names {
+			if info.Defs[nme] == types.Object(obj) {
+				if !c05CtxEligible(c, e, fi) {
+					return false
+				}
+				idx := pi
+				all := true
+				for _, caller := range c.P.FuncsIn("widgets/term") {
+					if caller.Decl.Body == nil {
+						continue
+					}
+					ast.Inspect(caller.Decl.Body, func(n ast.Node) bool {
+						if call, ok := n.(*ast.CallExpr); ok && calleeOf(caller.Pkg.TypesInfo, call) == fi.Obj {
+							if idx >= len(call.Args) || !c06IsPenBackground(c, e, caller, call.Args[idx], bgField, cursorField, depth+1) {
+								all = false
+							}
+						}
+						return true
+					})
+				}
+				return all
+			}
+			pi++
+		}
+	}
+	// local: exactly one definition, never reassigned, never address-taken; the pen's background
+	// must not change between the definition and the use: no store to the cursor's style in this function
+	var defs []ast.Expr
+	other := false
+	ast.Inspect(fi.Decl.Body, func(n ast.Node) bool {
+		switch t := n.(type) {
+		case *ast.AssignStmt:
+			for i, l := range t.Lhs {
+				if lid, ok := unparen(l).(*ast.Ident); ok && info.ObjectOf(lid) == types.Object(obj) {
+					if len(t.Lhs) == len(t.Rhs) && (t.Tok == token.DEFINE || t.Tok == token.ASSIGN) {
+						defs = append(defs, t.Rhs[i])
+					} else {
+						other = true
+					}
+				}
+				if sel, ok := unparen(l).(*ast.SelectorExpr); ok {
+					if s, ok := info.Selections[sel]; ok && s.Obj() == bgField {
+						other = true
+					}
+				}
+			}
+		case *ast.ValueSpec:
+			for i, nme := range t.Names {
+				if info.Defs[nme] == types.Object(obj) {
+					if i < len(t.Values) {
+						defs = append(defs, t.Values[i])
+					} else {
+						other = true
+					}
+				}
+			}
+		case *ast.IncDecStmt:
+			if lid, ok := unparen(t.X).(*ast.Ident); ok && info.ObjectOf(lid) == types.Object(obj) {
+				other = true
+			}
+		case *ast.UnaryExpr:
+			if lid, ok := unparen(t.X).(*ast.Ident); ok && t.Op == token.AND && info.ObjectOf(lid) == types.Object(obj) {
+				other = true
+			}
+		}
+		return true
+	})
+	return !other && len(defs) == 1 && c06IsPenBackground(c, e, fi, defs[0], bgField, cursorField, depth+1)
 }
 
 // ---------------------------------------------------------------- C06.d contracts
